@@ -81,6 +81,22 @@ def doOp (r : Run) : Sexp → Run
     | some fld, some i =>
       emit { r with st := step H r.st (.corruptIfaceFile p (mkCorruption fld i none)) } "ok"
     | _, _ => emit r "skip"
+  | .list [.atom "corrupt-core", .atom p, .atom "core.deps.current"] =>
+    -- the core's own dependency table rewritten to the hashes the dependencies export now
+    match r.st.coreFile p with
+    | some c =>
+      let newDeps := c.deps.map fun (d, h) => (d, ((r.st.ifaceFile d).map (·.hash)).getD h)
+      if c.tainted then emit r "ok"
+      else if newDeps == c.deps then emit r "skip"
+      else emit { r with st := step H r.st (.corruptCoreFile p { field := .coreDeps, deps := newDeps }) } "ok"
+    | none => emit r "skip"
+  | .list [.atom "corrupt-core", .atom p, .atom "core.deps.drop"] =>
+    match r.st.coreFile p with
+    | some c =>
+      if c.tainted then emit r "ok"
+      else if c.deps.isEmpty then emit r "skip"
+      else emit { r with st := step H r.st (.corruptCoreFile p { field := .coreDeps, deps := [] }) } "ok"
+    | none => emit r "skip"
   | .list [.atom "corrupt-core", .atom p, .atom f] =>
     match field? f, r.st.coreFile p with
     | some fld, some c =>
